@@ -19,6 +19,9 @@ into `Generated/AcmDescriptors.lean` on every run).
 * `other_class_vendor_stalled`   from EVERY state, for EVERY class / vendor / reserved request other than
                                  SET_LINE_CODING: data-stage and status-stage IN tokens are STALLed, OUT data
                                  packets get no handshake
+* `vendor_reserved_stalled`      the same for EVERY vendor / reserved request, bRequest unconstrained (0x20 included)
+* `unsupported_request_stalled`  whole transfer from EVERY state, EVERY such SETUP packet (any recipient, direction,
+                                 bRequest, wLength): SETUP ACKed, first IN -> STALL, address / configuration unchanged
 * `rx_in_order_partial`          OUT endpoint: delivered ++ buffered = the packets the host got ACKed, each
                                  once, in order — for every interleaving of host packets (including
                                  retransmissions after a lost ACK, corrupted packets and packets that do not
@@ -218,6 +221,58 @@ theorem other_class_vendor_stalled (c : FullConfig) (hc : IsAcm c) (s : FullStat
       Device.step, core, ht]
     simpa using hr
 
+
+/-- Vendor (type 2) and reserved (type 3) requests are "other" WHATEVER their bRequest — SET_LINE_CODING's number
+0x20 included: `ACMRequestHandlers` looks at the request code only under `setup.type == CLASS`, and the
+`StallOnlyRequestHandler` of `USBSerialDevice` never claims, so the multiplexer's stall-only fallback answers. -/
+theorem vendor_reserved_is_other (su : Setup) (h : su.type = 2 ∨ su.type = 3) : OtherClassVendor su := by
+  rcases h with h | h <;> simp [OtherClassVendor, h, TYPE_STANDARD]
+
+/-- **C57 (every vendor / reserved request).** `other_class_vendor_stalled` with the request code unconstrained:
+while a vendor- or reserved-type SETUP packet is latched — bRequest 0x20 or any other — IN tokens of its data /
+status stage are STALLed and its OUT packets are never ACKed. -/
+theorem vendor_reserved_stalled (c : FullConfig) (hc : IsAcm c) (s : FullState)
+    (h : s.ctl.setup.type = 2 ∨ s.ctl.setup.type = 3) :
+    (s.ctl.stage ≠ .setup → s.ctl.stage ≠ .statusOut →
+        (Full.step c s (.token PID_IN s.ctl.address 0)).2.resp = .hs PID_STALL) ∧
+    (∀ pid p ok, s.ctl.sdWait = false → s.ctl.tokEp = 0 →
+        (Full.step c s (.data pid p ok)).2.resp = .none ∨ (Full.step c s (.data pid p ok)).2.resp = .hs PID_STALL) :=
+  other_class_vendor_stalled c hc s (vendor_reserved_is_other _ h)
+
+/-- the hypothesis is satisfiable exactly where it matters: vendor / reserved requests numbered 0x20 (any recipient,
+direction, wLength) are "other", CLASS 0x20 is not -/
+example : OtherClassVendor (parseSetup [0x40, 0x20, 0, 0, 0, 0, 0, 0]) := by unfold OtherClassVendor; decide
+example : OtherClassVendor (parseSetup [0xE3, 0x20, 1, 2, 0, 0, 7, 0]) := by unfold OtherClassVendor; decide
+example : OtherClassVendor (parseSetup [0x21, 0x22, 3, 0, 0, 0, 0, 0]) := by unfold OtherClassVendor; decide
+example : ¬ OtherClassVendor (parseSetup [0x21, 0x20, 0, 0, 0, 0, 7, 0]) := by unfold OtherClassVendor; decide
+
+/-- The host side of a control transfer up to its first IN token (the data stage of a control read, the status stage
+of a control write without data, or the early status IN by which a host ends an OUT data stage). -/
+def unsupportedTransfer (a : Nat) (su : List Nat) : List HostEvent :=
+  [.token PID_SETUP a 0, .data PID_DATA0 su true, .token PID_IN a 0]
+
+/-- **C57 (other class / vendor / reserved requests, whole transfer).** From EVERY state of the device, for EVERY
+8-byte SETUP packet that is a class, vendor or reserved request other than CLASS / SET_LINE_CODING — every
+recipient, direction, bRequest, wValue, wIndex, wLength: the SETUP transaction is ACKed, the first IN token is
+answered STALL, and address and configuration are what they were. -/
+theorem unsupported_request_stalled (c : FullConfig) (hc : IsAcm c) (s : FullState) (su : List Nat) (hl : su.length = 8)
+    (h : OtherClassVendor (parseSetup su)) :
+    (Full.run c s (unsupportedTransfer s.ctl.address su)).map (·.resp) = [.none, .hs PID_ACK, .hs PID_STALL] ∧
+    (Full.final c s (unsupportedTransfer s.ctl.address su)).ctl.address = s.ctl.address ∧
+    (Full.final c s (unsupportedTransfer s.ctl.address su)).ctl.config = s.ctl.config := by
+  obtain ⟨hacm, hx⟩ := hc
+  have ho := owner_other c.dev hx (parseSetup su) h
+  have hty : (parseSetup su).type ≠ TYPE_STANDARD := h.1
+  by_cases h0 : (parseSetup su).length = 0 <;> cases hin : (parseSetup su).isIn <;>
+  simp [Full.run, Full.final, unsupportedTransfer, Full.step, Device.step, core, onToken, afterToken, tokenStage, onData, onSetupData,
+    hl, Resp.isData, Resp.dataLen, tokenPidOf, request, ho, hty, h0, hin, acmAcksData, stageAfterSetup, Resp.isNone, PID_SETUP, PID_OUT,
+    PID_IN, PID_PING, PID_ACK, PID_DATA0, PID_STALL, ctxOf]
+
+/-- … on the serial device itself, freshly reset: a VENDOR request numbered 0x20 is STALLed, CLASS 0x20 is not -/
+example : (Full.run acmCfg (init acmCfg) (unsupportedTransfer 0 [0x40, 0x20, 0, 0, 0, 0, 0, 0])).map (·.resp) =
+    [.none, .hs PID_ACK, .hs PID_STALL] := by decide +kernel
+example : (Full.run acmCfg (init acmCfg) (unsupportedTransfer 0 [0x21, 0x20, 0, 0, 0, 0, 0, 0])).map (·.resp) =
+    [.none, .hs PID_ACK, .data PID_DATA1 []] := by decide +kernel
 
 /-- SET_LINE_CODING for interface `i`: bmRequestType 0x21 (class, interface, host-to-device), bRequest 0x20,
 wLength 7. -/
